@@ -125,6 +125,41 @@ def oracle(ctx, obs, max_py_cells):
                         ctx.violation("S5", f"visibility {k} = {vis[k][1]!r} differs from (0.5 - rate(0))/0.5 = {want!r} ({o['setup']}, n={n})",
                                       {"kind": "visibility_vs_series", "channel": k, "setup": o["setup"]}, dict(rep, channel=k, visibility=vis[k][1], expected=want),
                                       found_input=False)
+            # the free functions with a separate equal object / a source differing only in brightness as second source
+            fr = o.get("free")
+            if fr and o.get("sv2") is not None:
+                P = fl(o["sv4"]) / fl(o["sv2"]) ** 2
+                frep = dict(rep, signal_waist_position_m=fl(fr["signal_waist_position_m"]), idler_waist_position_m=fl(fr["idler_waist_position_m"]))
+                variants = [("vis_clone", "spdcalc::hom_two_source_visibilities(&a, &a.clone(), range, range, integrator)", "a separate equal object"),
+                            ("vis_bright", f"spdcalc::hom_two_source_visibilities(&a, &b, range, range, integrator), b = a with pump_average_power x {fl(fr['power_factor'])!r}, deff x {fl(fr['deff_factor'])!r}", "a source differing only in brightness"),
+                            ("vis_bright_rev", f"spdcalc::hom_two_source_visibilities(&b, &a, range, range, integrator), b = a with pump_average_power x {fl(fr['power_factor'])!r}, deff x {fl(fr['deff_factor'])!r}", "a source differing only in brightness (first)")]
+                for key, call, desc in variants:
+                    v = fr[key]
+                    if "panic" in v:
+                        ctx.violation("S5", f"hom_two_source_visibilities panicked with {desc} as second source ({o['setup']})", {"kind": "panic", "variant": key},
+                                      dict(frep, call=call, outcome=v))
+                        continue
+                    for k in ("ss", "ii"):
+                        t, x = fl(v[k][0]), fl(v[k][1])
+                        if not (t == 0.0 and fin(x) and abs(x - P) <= SLACK):
+                            ctx.violation("S5", f"two-source visibility {k} with {desc} as second source = (delay {t!r}, {x!r}); identical sources at zero delay must give "
+                                                f"sum s^4/(sum s^2)^2 = {P!r} ({o['setup']}, n={n})",
+                                          {"kind": "visibility_vs_purity", "variant": key, "channel": k}, dict(frep, call=call, channel=k, delay=t, visibility=x, purity_sv=P,
+                                                                                                                 self_vs_self=vis[k][1]))
+                td = fr["time_delays_clone"]
+                if isinstance(td, list) and not (fl(td[0]) == 0.0 and fl(td[1]) == 0.0):
+                    ctx.violation("S5", f"hom_two_source_time_delays(&a, &a.clone()) = {[fl(x) for x in td]!r}: ss and ii delays of equal sources must be 0 ({o['setup']})",
+                                  {"kind": "time_delays_equal_sources"}, dict(frep, time_delays=[fl(x) for x in td]))
+                sb = fr["series_bright"]
+                if "panic" not in sb:
+                    for j, tau in enumerate(taus):
+                        for k in NAMES:
+                            x = fl(sb[k][j])
+                            if not (fin(x) and abs(x - ser[k][j]) <= SLACK * max(1.0, abs(ser[k][j]))):
+                                ctx.violation("S5", f"two-source rate {k} with a second source differing only in brightness (power x {fl(fr['power_factor'])!r}, deff x {fl(fr['deff_factor'])!r}) "
+                                                    f"= {x!r}, the setup against itself gives {ser[k][j]!r} at tau={tau!r} ({o['setup']}, n={n})",
+                                              {"kind": "brightness", "channel": k}, dict(frep, tau=tau, channel=k, rate=x, self_vs_self=ser[k][j],
+                                                                                         call="spdcalc::hom_two_source_rate_series(&a.joint_spectrum(i), &b.joint_spectrum(i), range, range, taus)"))
             # model vs implementation: recompute the four-index sums from the eight jsa_range grids
             if n ** 4 <= max_py_cells:
                 ls, li = [fl(h) for h in o["ls"]], [fl(h) for h in o["li"]]
@@ -286,7 +321,9 @@ def run(ctx):
                        "the implementation uses and the singular-value power sums of the sampled matrix; pairs: two DIFFERENT sources on two different "
                        "ranges (all eight grids distinct) for the index-permutation correspondence; distinct = distinct (setup, side, axes, delays)")
     ctx.cov["clauses"] = {
-        "V_ss = V_ii at zero delay (identical sources)": "proved (C10_ss_trace, C10_ss_eq_ii)",
+        "V_ss = V_ii at zero delay (identical sources)": "proved (C10_ss_trace, C10_ss_eq_ii); also through the free function with two equal objects whichever "
+            "way the `spdc1 == spdc2` test comes out (C10_free_function_identical, C10_time_delays_equal_sources) and for a second source differing only in "
+            "brightness (C10_brightness_invariant); measured on Rust with a.clone() and with scaled pump power / d_eff",
         "both = sum s^4/(sum s^2)^2 over singular values of the sampled JSA matrix": "proved for any unitary factorisation (C10_singular_values, "
             "C10_setup_visibilities); nalgebra's complex SVD accuracy validated per input (1e-9)",
         "rates ss, ii in [0,1] at every delay": "proved (C10_range_partial, C10_range_general)",
